@@ -1,7 +1,7 @@
 (* Stream/Extract.v — extraction of the C16 model (ExtrOcamlBasic only) *)
 From Coq Require Import ExtrOcamlBasic.
-From ZV Require Import Stream.Model.
+From ZV Require Import Stream.Consts Stream.Model.
 Extraction Language OCaml.
 Extraction "model.ml" Z.of_N N.of_nat Nat.add
-  v2_encode_all v2_frame v2_next v2_run plain_encode_all plain_run v2_seq_ok plain_seq_ok st0 conns_encode conns_run link_heartbeat
+  v2_encode_all v2_frame v2_next v2_run plain_encode_all plain_run v2_seq_ok plain_seq_ok st0 conns_encode conns_run link_heartbeat pipeline_body pipeline_receive snap_body snap_receive msg_app msg_snap
   msg_marshal msg_unmarshal entry_marshal entry_unmarshal msg_size entry_size.
